@@ -142,6 +142,7 @@ def exception_zoo():
     ns = {'__name__': 'c12zoo'}
     exec(c12_gen.PRELUDE, ns)
     zoo += [ns[k] for k in ('U', 'Usub', 'Udoc', 'U2', 'U3', 'U4', 'W', 'WK', 'Never')]
+    zoo += [ns[k] for k in c12_gen.CTOR_CLASSES]
     exec('''
 class M1(U, ValueError):
     pass
@@ -173,9 +174,10 @@ class E2(Exception):
 
 
 def instantiate(T):
-    for args in (('msg',), ('msg', 2), ('utf-8', b'x', 0, 1, 'r'), ('utf-8', 'x', 0, 1, 'r'), ()):
+    for args, kw in ((('msg',), {}), (('msg', 2), {}), (('utf-8', b'x', 0, 1, 'r'), {}), (('utf-8', 'x', 0, 1, 'r'), {}), ((), {}),
+                     ((), {'detail': 'd'})):
         try:
-            return T(*args)
+            return T(*args, **kw)
         except Exception:
             continue
     return None
